@@ -294,7 +294,7 @@ def main(argv=None):
 
     if os.environ.get("PYVC_TIMING"):
         for r, (name, cfg, _) in sorted(zip(results, jobs), key=lambda x: -x[0]["wall_s"])[:8]:
-            print(f"[timing] {r['wall_s']:.1f}s solver={r['solver_s']:.1f}s paths={r['paths']}+{r.get('scoped_paths', 0)} {name} {cfg}")
+            print(f"[timing] {r['wall_s']:.1f}s solver={r['solver_s']:.1f}s paths={r['paths']}+{r.get('scoped_paths', 0)} {name} {str(cfg)[:160]}")
     known_obs = sum(1 for name, cfg, o in failed if any(k.get("obligation") == o["name"] for k in kf))
     claimed_ob = n_ob - known_obs
     meta = {}
